@@ -786,6 +786,9 @@ class AndMaybeMatcher(AdditiveBiMatcher):
         skipped = a.skip_to_quality(minquality - b.max_quality())
         if a.is_active():
             skipped += b.skip_to_quality(minquality - a.max_quality())
+            if b.is_active():
+                # Keep the optional matcher aligned with the required one
+                b.skip_to(a.id())
         return skipped
 
     def weight(self):
